@@ -52,6 +52,10 @@ PROFILES = {
                "blocking_root": True, "flags": True, "max_regions": 2, "single_completion_region": True},
     "copy":  {"history": True, "defer": True, "completion": True, "p_sub": 0.5, "pseudo": True, "max_depth": 1},
     "pseudo": {"pseudo": True, "history": True, "p_sub": 0.6, "max_depth": 1},
+    # C14: everything every front-end can write (no Defer functor action); Kleene / base-class triggers, completion rows,
+    # explicit entry / fork / entry and exit points, history, state-local and machine-level internal tables
+    "frontend": {"pseudo": True, "history": True, "completion": True, "p_sub": 0.45, "max_depth": 2, "kleene": True,
+                 "base_events": True, "nevents": 5, "p_state_irows": 0.5, "p_sm_irows": 0.4, "p_internal_in_table": 0.25},
 }
 
 class Gen:
